@@ -6,7 +6,7 @@ import re
 import subprocess
 import sys
 
-from vlib import core, nfa
+from vlib import core, nfa, oracles
 from checks import _e1parse
 
 FLAGS = re.IGNORECASE | re.UNICODE
@@ -144,7 +144,7 @@ def run_pumps(items, size):
 
 def run(tier, seed):
     from sqlparse import keywords, lexer
-    rules = [rx for rx, _ in keywords.SQL_REGEX]
+    rules = [rx for rx, _, _ in oracles.active_rules()]     # what the lexer compiled, not only what keywords.py says
     reps = _e1parse.cls_alphabet()
     conf_len = 5 if tier == 'quick' else 6
     items = core.rotate(list(enumerate(rules)), seed)
@@ -237,7 +237,7 @@ def replay(case):
         t, ratio, desc = again[0][4], again[0][5], again[0][6]
         bad = t > BUDGET_S or (t > 0.3 and ratio > 6.5)
         return {'violation': bool(bad), 'observed': {'slow': bad, 'where': desc}}
-    rules = [rx for rx, _ in keywords.SQL_REGEX]
+    rules = [rx for rx, _, _ in oracles.active_rules()]
     hit = [rx for rx in rules if rx == case['rule']]
     if not hit:
         return {'violation': False, 'observed': 'rule no longer present'}
